@@ -10,7 +10,9 @@ EXPLANATION = (
     'the widths and order in which append_key / Key::into_vec / Value::Transaction write them; (r2) sibling agreement — get_cells and '
     'get_cells_capacity apply the same multiset of filter comparisons (operator, filtered quantity, range bound), and the grouped and '
     'ungrouped branches of get_transactions apply the same block-range filter; (r3) the three queries read only through one snapshot '
-    '(shared with C17.L4); (r4) limit == 0 is rejected before iteration, and the cursor entry itself is skipped iff a cursor was given.')
+    '(shared with C17.L4); (r4) limit == 0 is rejected before iteration, and the cursor entry itself is skipped iff a cursor was given; '
+    '(r5) seek keys: ascending starts at the prefix, cursored queries at the cursor key, descending at prefix ++ [0xff; n] with n >= 1 for '
+    'every accepted args length, which bounds the prefix range only if indexed args are limited at registration.')
 NOT_DECIDED = ('Exactly-once pagination, descending = reverse(ascending), grouping equals regrouping of the ungrouped answer, the capacity '
                'sum: value clauses over index contents.')
 
